@@ -37,6 +37,15 @@ CHECKS = {
    note=COMMON_NOTE + 'Theorems closed under the global context. "Never spins out" after Recur is proved at the semantic level (conditional on no spin-out during '
         'the first period), not yet carried through the loop invariant. isize head positions modelled as Z.',
    tech='Rocq/Coq proof (loop invariant + translated-cycle theorem) + model/implementation correspondence + extracted-spec oracle'),
+ 'C15': dict(cat='proof', sec='DESIGN.md §6 C15',
+   text='Every decider loop of the Gallina models is for_upto(limit, body) with a limit-free body; the generic theorem C15_for_upto_mono '
+        '(an answer produced within n iterations is produced unchanged for every m >= n) gives C15_quick_mono, C15_rec_mono and C15_bw_mono '
+        '(same Refuted step number), with the CPS/segment instances added as their models land. That the REAL loop bodies do not read the limit is what '
+        'the tie checks: the implementation is run at pairs of limits l1 < l2 and the relation "equal or the smaller answered limit-reached" is '
+        'checked directly on its answers, and the same cases go through the extracted models.',
+   note=COMMON_NOTE + 'Theorems closed under the global context. Families currently covered: backward reasoner (3 goals), quick_term_or_rec, run_quick_machine; '
+        'cps/segment families are included automatically once their harness commands exist.',
+   tech='Rocq/Coq proof (generic loop monotonicity) + paired-limit check on the implementation + model correspondence'),
  'C12': dict(cat='proof', sec='DESIGN.md §6 C12',
    text='Coq theorems over the Gallina model of tape.rs: canonical form is an invariant of Tape::step for every direction/colour/sweep flag '
         'and hence every history (induction), canonical tapes are unique representations of their cells, and marks/blank/at_edge/blocks/'
